@@ -26,7 +26,8 @@
 (***************************************************************************)
 EXTENDS NodeTerms, Json
 
-CONSTANTS Depth, Vals
+CONSTANTS Depth, Vals,
+          Wide    \* length of the array port of the wide fan-in starting shape (0: no such shape)
 
 VARIABLES wire,   \* node -> [a |-> src, b |-> src, arr |-> Seq(src)]
           pval,   \* param -> value (Nat)
@@ -58,6 +59,17 @@ Shapes ==
             [n \in Nodes |-> IF n = n1 THEN [a |-> 1, b |-> NoSrc, arr |-> <<>>]
                              ELSE IF n = n2 THEN [a |-> n1, b |-> 2, arr |-> <<>>]
                              ELSE IF n = n3 THEN [a |-> n1, b |-> n2, arr |-> <<n1, 2, n2>>] ELSE NoWire] }
+          ELSE {})
+    \* wide fan-in: one node with Wide array elements over sources whose versions differ, next to two
+    \* single ports.  The number of dependencies of a node is unbounded in the contract; an
+    \* implementation that orders / compares its dependency list positionally behaves differently
+    \* above the small sizes (sort.Slice is an insertion sort up to 12 elements).
+    \cup (IF Wide > 0 /\ NN >= 3 /\ NP >= 2 THEN
+          LET cyc == <<n1, 2, n2, 1>> IN
+          { [n \in Nodes |-> IF n = n1 THEN [a |-> 1, b |-> NoSrc, arr |-> <<>>]
+                             ELSE IF n = n2 THEN [a |-> n1, b |-> 2, arr |-> <<>>]
+                             ELSE IF n = n3 THEN [a |-> 1, b |-> n2, arr |-> [i \in 1..Wide |-> cyc[((i - 1) % 4) + 1]]]
+                             ELSE NoWire] }
           ELSE {})
 
 Init ==
